@@ -122,7 +122,7 @@ def run(clause, ks):
                     out.append(dict(t1=repr(a), t2=repr(b), result=str(r), expected=str(want)))
     else:
         raise SystemExit(f"unknown clause {clause}")
-    return dict(clause=clause, kinds=ks, violations=out[:20], n_violations=len(out), pairs_tried=tried)
+    return dict(clause=clause, kinds=ks, violations=out[:20], all_violations=out, n_violations=len(out), pairs_tried=tried)
 
 
 def _pairs():
